@@ -372,6 +372,71 @@ func init() {
 				break
 			}
 		}
+		// ---- (e) a hit on an EMPTY value whose reply is cut inside its extras (after the 24-byte
+		// header, before the 4 flag bytes are complete): the value read that follows needs no byte
+		// from the socket, so only the checks on the extras can notice the cut
+		if !poolDead {
+			fb, pb := newFake("c13-empty-")
+			opts := batched.Opts{BatchSize: 4, BatchDelayMicros: 300}
+			h, _ := memcached.Batched(pb, opts)()
+			for _, kind := range []string{"get", "gat"} {
+				for _, mid := range []int{24, 25, 26, 27} {
+					what := fmt.Sprintf("pool of one connection: %s of a key that holds an empty value with flags 0xdeadbeef, the backend cuts the connection after %d bytes of the reply", kind, mid)
+					crumb("C13 "+what, nil)
+					fb.Put("empty", fakemc.Item{Value: []byte{}, Flags: 0xdeadbeef})
+					fb.Arm(&fakemc.Fault{Index: 0, Kind: fakemc.FaultCutMid, MidBytes: mid})
+					type res struct {
+						flags uint32
+						data  []byte
+						miss  bool
+						err   error
+					}
+					done := make(chan res, 1)
+					go func() {
+						if kind == "gat" {
+							r, err := h.GAT(common.GATRequest{Key: []byte("empty"), Exptime: 0})
+							done <- res{r.Flags, r.Data, r.Miss, err}
+							return
+						}
+						rs, err := drainGet(h.Get(common.GetRequest{Keys: [][]byte{[]byte("empty")}, Opaques: []uint32{7}, Quiet: []bool{false}}))
+						if err != nil || len(rs) != 1 {
+							if err == nil {
+								err = fmt.Errorf("%d responses", len(rs))
+							}
+							done <- res{err: err}
+							return
+						}
+						done <- res{rs[0].Flags, rs[0].Data, rs[0].Miss, nil}
+					}()
+					rep.Evaluations++
+					distinct[fmt.Sprintf("empty/%s/%d", kind, mid)] = true
+					rep.Distribution["empty-value-cuts"]++
+					select {
+					case r := <-done:
+						switch {
+						case r.err != nil:
+							rep.Validated++ // an error is an outcome
+						case r.miss || len(r.data) != 0 || r.flags != 0xdeadbeef:
+							rep.Violations = append(rep.Violations, Violation{What: fmt.Sprintf("%s: the caller was given miss=%v, %d bytes, flags %#x and no error (the entry holds an empty value with flags 0xdeadbeef)", what, r.miss, len(r.data), r.flags),
+								Signature: "pool-wrong-hit-after-cut", Replay: map[string]interface{}{"kind": kind, "cut_after_bytes": mid}})
+						default:
+							rep.Validated++
+						}
+					case <-time.After(8 * time.Second):
+						rep.Violations = append(rep.Violations, Violation{What: what + ": the call did not return within 8 s", Signature: "pool-hang", Replay: map[string]interface{}{"kind": kind, "cut_after_bytes": mid}})
+						poolDead = true
+					}
+					fb.Arm(nil)
+					if poolDead {
+						break
+					}
+				}
+				if poolDead {
+					break
+				}
+			}
+			fb.StopListening()
+		}
 		// ---- (d) a LONG outage: the backend stays away for longer than the pool's whole reconnect
 		// back-off schedule (about 14 s) while a call waits, then comes back on the same address
 		if !poolDead {
